@@ -6,10 +6,10 @@ CONSTANTS
  FailSet = {}
  MaxTime = 4
  Waits <- W1
- CancelOf <- CancelT
+ CancelOf <- CancelF
  Foreign = FALSE
- KindOf <- AllCalls
- LoadOf <- NoLoad
+ KindOf <- K_cae
+ LoadOf <- L_cae
  ClearInputs = TRUE
 INVARIANT Inv_C03
 INVARIANT Inv_C07
